@@ -263,6 +263,41 @@ PROPS['C02'] = rt_prop('Unmodified round trip preserves module content', ['Orca/
     'round-trip to themselves (tables regenerated from the source on every run); names and custom sections by C29 / C28. The pass-through payloads are compared per case: printed text, every name map, custom sections in order.',
     'Lean 4 proof by cases over tables regenerated from the source (translator) + bit-pattern lemmas + differential correspondence check')
 
+PROPS['C03'] = {
+    'title': 'Parsing never panics',
+    'props_files': ['Orca/Props/C03.lean'], 'translator': True,
+    'families': [{'name': 'parse', 'quick_n': 12000, 'thorough_n': 1500000}],
+    'rule': 'seeds: the ~120 module and component fixtures of the repository, generated feature-zoo modules (alone and wrapped in a component), generated trees of nested components (depth <= 4); 1/12 unmutated, the rest one of 16 mutations: '
+            'truncation, 1-4 byte flips, splice, duplicated / moved / dropped section, rewritten item count, a function-name entry with an arbitrary index, a name section in front of the code section, empty and malformed producers sections, '
+            'a global with non-constant / extended-constant / unterminated initialiser, a function section pointing at a missing or non-function type, a garbage tag section, malformed name maps of every other kind, random bytes behind a module or '
+            'component header, random bytes; each mutant goes to Module::parse (multi-memory flag off and on) and Component::parse under catch_unwind; distinct by case line; non-trivial always',
+    'trusted': COMMON_TRUST + [
+        'the event extractor harness/src/parse_facts.rs (it must read what parse_internal reads, in the same order; tied to the code by the OK / ERR agreement on every mutant)',
+        'NOT covered by the theorem: panics inside wasmparser / wasm-encoder, allocation failure, stack exhaustion on deeply nested components (the recursion of parse_comp), and Component::parse\'s own guards beyond the two repaired slicing sites - these are sampled by the mutants only (label PARTIAL)',
+    ],
+    'assumptions': ['the host has enough stack for the nesting depth of the input'],
+    'design_ref': 'DESIGN.md section 6, C03',
+    'level_text': 'PARTIAL. Lean 4 theorem over the model of Module::parse_internal\'s own control flow (every indexing / lookup is a panic leaf): for every list of parse events, in any order and of any length, the result is a module or an error, never a panic - '
+                  'the count checks are what make the indexing safe; constant expressions are accepted exactly for the operators of the table regenerated from InitExpr::eval. Tied to the code by predicting OK / ERR for every mutant; panics anywhere (incl. the libraries and Component::parse) are caught by the oracle.',
+    'technique': 'Lean 4 proof (guards imply safety of every indexing, for all event lists) + differential correspondence check on byte-level mutants',
+}
+PROPS['C27'] = {
+    'title': 'Component round trip preserves structure at any nesting depth',
+    'props_files': ['Orca/Props/C27.lean'],
+    'families': [{'name': 'comp', 'quick_n': 1500, 'thorough_n': 100000}],
+    'rule': 'the component fixtures of the repository that validate, then generated component trees: nesting depth 0-4, each level 1-6 items drawn from 12 pieces (core modules, core instances + aliases + lifted functions + exports, lowered imports, '
+            'a zoo of defined types, resources, stream / future types at top level and inside instance and component type declarations, imports of functions and instances, core module types, custom sections) and nested components, some instantiated; '
+            'distinct by case line; non-trivial always',
+    'trusted': COMMON_TRUST + [
+        'modelled as the identity, not verified: the conversion of the contents of component-level sections (component.rs, wrappers.rs, wasm-encoder\'s re-encoder): compared per case on wasmprinter text of input and output; nested core modules are C01/C02',
+    ],
+    'assumptions': ['the input component validates under wasmparser with all features enabled'],
+    'design_ref': 'DESIGN.md section 6, C27',
+    'level_text': 'Lean 4 theorems, for every component tree of any width and depth: the payload loop of parse_comp records exactly the component\'s own sections and direct children (nested payloads at any depth are skipped, nothing twice), and replaying the '
+                  'recorded runs with one cursor per kind restores the original item order however sections were cut or merged. Contents of sections are compared per case (text equality, validator) on generated trees up to depth 4.',
+    'technique': 'Lean 4 proof (structural induction over nested component trees; run-length replay invariant) + differential correspondence check',
+}
+
 SEM_RULE = ("generated terminating programs of the core fragment (0-2 i32 params, 0-2 results, globals, one memory, three callees incl. one with side effects; statements: "
             "log, local/global set, store, drop, block, counted loop, if/else, br, br_if, br_table, return, unreachable; expressions incl. value-producing block / if, loads, "
             "division that may trap, calls; nesting <= 3) x injection plans of 1-6 steps over before / after / semantic_after / block_entry / block_exit / function entry / exit "
